@@ -27,7 +27,7 @@ theorem Broken.not_solid {s : St} {k : Key} (h : Broken s k) : ¬ Solid s k := b
   rcases h with h | ⟨n, d, o, nd, hn, hm, hnd, hne, _⟩
   · obtain ⟨n, hn⟩ := hs.node; rw [h] at hn; cases hn
   · cases hs with
-    | mk _ n' hn' _ hval _ =>
+    | mk _ n' hn' _ _ hval _ =>
       rw [hn] at hn'; cases hn'
       obtain ⟨nd', hnd', hv, _⟩ := hval d o hm
       rw [hnd] at hnd'; cases hnd'
@@ -39,19 +39,65 @@ theorem Broken.not_nGood {s : St} {k : Key} {n : Node} (h : Broken s k) (hn : s.
   · rw [h] at hn; cases hn
   · exact not_nGood_of_broken hn' hm hnd hne
 
-/-- `set_computed` of a freshly computed node for a key whose recorded run is broken -/
-theorem publish_spec {p : Program} (np : NoProj p) {k : Key} {d : NodeDef} (hp : p[k]? = some d)
+/-- why the executor of `k` runs in `s`: justified, or forced by a pending backward projection below -/
+def Why (p : Program) (s : St) (k : Key) : Prop :=
+  Just p s k ∨ (¬ Verified s k ∧ ∃ n f o, s.nodes k = some n ∧ n.kind = .projection ∧ (f, o) ∈ n.deps ∧
+    hasPending s f = true)
+
+theorem Why.not_verified {p : Program} {s : St} {k : Key} (h : Why p s k) : ¬ Verified s k := by
+  rcases h with h | h
+  · exact h.1
+  · exact h.1
+
+/-- a projection that is not verified and has a callee with a pending backward projection is not `Solid` -/
+theorem not_solid_of_pending {s : St} {k : Key} {n : Node} (hn : s.nodes k = some n)
+    (hk : n.kind = .projection) (hnv : n.lastVerified ≠ s.epoch) {f : Key} {o : Val}
+    (hm : (f, o) ∈ n.deps) (hp : hasPending s f = true) : ¬ Solid s k := by
+  intro h
+  cases h with
+  | mk _ n' hn' _ hq _ _ =>
+    rw [hn] at hn'; cases hn'
+    rcases hq hk with h | h
+    · exact hnv h
+    · rw [h f o hm] at hp; cases hp
+
+theorem valueChanged_false {s : St} {k : Key} {v : Val} {n : Node} (hn : s.nodes k = some n)
+    (hk : n.kind = .firewall ∨ n.kind = .projection) (h : valueChanged s k v = false) : v = n.value := by
+  simp only [valueChanged, hn, Bool.and_eq_false_iff, decide_eq_false_iff_not] at h
+  rcases h with h | h
+  · rcases hk with hk | hk <;> simp [isFwPj, hk] at h
+  · exact (Decidable.of_not_not h).symm
+
+theorem valueChanged_true_of_ne {s : St} {k : Key} {v : Val} {n : Node} (hn : s.nodes k = some n)
+    (hk : n.kind = .firewall ∨ n.kind = .projection) (h : n.value ≠ v) : valueChanged s k v = true := by
+  rcases hk with hk | hk <;> simp [valueChanged, hn, isFwPj, hk, h]
+
+theorem projTfcChanged_false_eq {s : St} {k : Key} {t : List Key} {n : Node} (hn : s.nodes k = some n)
+    (hk : n.kind = .projection) (h : projTfcChanged s k t = false) : t = n.tfc := by
+  simp only [projTfcChanged, hn, hk, decide_true, Bool.true_and, decide_eq_false_iff_not] at h
+  exact (Decidable.of_not_not h).symm
+
+theorem projTfcChanged_of_not_proj {s : St} {k : Key} {t : List Key}
+    (h : ∀ n, s.nodes k = some n → n.kind ≠ .projection) : projTfcChanged s k t = false := by
+  simp only [projTfcChanged]
+  cases hn : s.nodes k with
+  | none => rfl
+  | some n => simp [h n hn]
+
+/-- `set_computed` of a freshly computed node for a key that is not `Solid` (its recorded run is
+    broken, or it is a projection re-executed by backward projection) -/
+theorem publish_spec {p : Program} {k : Key} {d : NodeDef} (hp : p[k]? = some d)
     (hki : d.kind ≠ .input) (hke : d.kind ≠ .external)
-    {s1 : St} (i1 : Inv p s1) (hj1 : Just p s1 k) (hbr : Broken s1 k) {a : Acc} {v : Val} (pb : Bool)
-    (hacc : AccOK p k s1 a) (htr : TraceOK d.prog a.deps v) :
-    let changed : Bool := valueChanged s1 k v
+    {s1 : St} (i1 : Inv p s1) (hwhy : Why p s1 k) (hns : ¬ Solid s1 k)
+    (hng : ∀ n, s1.nodes k = some n → n.kind = .normal → ¬ NGood s1 k) {a : Acc} {v : Val}
+    (hacc : AccOK p k s1 a) (htr : TraceOK d.prog a.deps v)
+    (hpj : d.kind = .projection → ∀ d' o nd, (d', o) ∈ a.deps → s1.nodes d' = some nd → nd.kind = .firewall) :
+    let changed : Bool := valueChanged s1 k v || projTfcChanged s1 k a.tfc
     let nn : Node := { kind := d.kind, lastVerified := s1.epoch, value := v, deps := a.deps,
-                       seen := a.seen, tfc := a.tfc, pendingBP := pb }
+                       seen := a.seen, tfc := a.tfc, pendingBP := changed || hasPending s1 k }
     let s3 := install (if changed then markDirty s1 [k] else s1) k nn
     Inv p s3 ∧ Frame p s1 s3 ∧ Touches (k + 1) s1 s3 ∧ s3.nodes k = some nn ∧ s3.epoch = s1.epoch := by
   intro changed nn s3
-  have hns : ¬ Solid s1 k := hbr.not_solid
-  have hkp : d.kind ≠ .projection := np k d hp
   have n3k : s3.nodes k = some nn := by
     simp only [s3, install, setNode, if_true]
   have n3o : ∀ x, x ≠ k → s3.nodes x = s1.nodes x := by
@@ -77,8 +123,22 @@ theorem publish_spec {p : Program} (np : NoProj p) {k : Key} {d : NodeDef} (hp :
     obtain ⟨d', hp', hk', _⟩ := i1.kind k n0 h0
     rw [hp] at hp'; cases hp'
     exact hk'.symm
-  -- a clean edge of `s3` outside the row of `k` was clean before, and if the value of the firewall
-  -- `k` changed its callee is not affected
+  -- if nothing was marked, an old firewall / projection node keeps its value, a projection its set
+  have sameVal : ∀ n0, s1.nodes k = some n0 → n0.kind = .firewall ∨ n0.kind = .projection →
+      changed = false → v = n0.value := by
+    intro n0 h0 hk hch
+    have : valueChanged s1 k v = false := by
+      cases hx : valueChanged s1 k v with
+      | false => rfl
+      | true => simp [changed, hx] at hch
+    exact valueChanged_false h0 hk this
+  have sameTfc : ∀ n0, s1.nodes k = some n0 → n0.kind = .projection → changed = false → a.tfc = n0.tfc := by
+    intro n0 h0 hk hch
+    have : projTfcChanged s1 k a.tfc = false := by
+      cases hx : projTfcChanged s1 k a.tfc with
+      | false => rfl
+      | true => simp [changed, hx] at hch
+    exact projTfcChanged_false_eq h0 hk this
   have cleanBefore : ∀ x n y o, x ≠ k → s1.nodes x = some n → (y, o) ∈ n.deps → s3.dirty x y = false →
       s1.dirty x y = false ∧ (changed = true → affected s1 [k] (y + 1) y = false) := by
     intro x n y o hx hnx hm hcl
@@ -89,8 +149,11 @@ theorem publish_spec {p : Program} (np : NoProj p) {k : Key} {d : NodeDef} (hp :
       rw [hch] at hcl
       obtain ⟨h1, h2⟩ := markDirty_clean hnx hm hcl
       exact ⟨h1, fun _ => h2⟩
+  have notAffK : changed = true → affected s1 [k] (k + 1) k = false → False := by
+    intro _ h
+    rw [affected_step [k] down1] at h
+    simp at h
   have sol : ∀ x, Solid s1 x → Solid s3 x := fun x hx => hx.avoid hns e3 n3o
-  -- `NGood` of a normal key other than `k` survives when the edge into it is still clean
   have ng : ∀ y ny, s1.nodes y = some ny → ny.kind = .normal → y ≠ k → NGood s1 y →
       (changed = true → affected s1 [k] (y + 1) y = false) → NGood s3 y := by
     intro y ny hny hkn hyk hg haff
@@ -106,30 +169,56 @@ theorem publish_spec {p : Program} (np : NoProj p) {k : Key} {d : NodeDef} (hp :
         cases hkd : d.kind with
         | input => exact absurd hkd hki
         | external => exact absurd hkd hke
-        | projection => exact absurd hkd hkp
-        | normal => exact Or.inr ⟨by rw [hk0k, hkd], hbr.not_nGood hk0⟩
-        | firewall =>
-          refine Or.inl ⟨by rw [hk0k, hkd], ?_⟩
-          show v = n0.value
-          have : changed = (isFwPj n0.kind && decide (n0.value ≠ v)) := by
-            simp only [changed, valueChanged, hk0]
-          rw [hch, hk0k, hkd] at this
-          simp [isFwPj] at this
-          exact this.symm
+        | projection =>
+          exact Or.inr (Or.inl ⟨by rw [hk0k, hkd], sameVal n0 hk0 (Or.inr (by rw [hk0k, hkd])) hch,
+            sameTfc n0 hk0 (by rw [hk0k, hkd]) hch⟩)
+        | normal => exact Or.inr (Or.inr ⟨by rw [hk0k, hkd], hng n0 hk0 (by rw [hk0k, hkd])⟩)
+        | firewall => exact Or.inl ⟨by rw [hk0k, hkd], sameVal n0 hk0 (Or.inl (by rw [hk0k, hkd])) hch⟩
   have i3 : Inv p s3 := by
     constructor
     · intro x nx hx
       by_cases e : x = k
-      · subst e; rw [n3k] at hx; cases hx
+      · subst e; rw [n3k] at hx; obtain rfl := Option.some.inj hx
         exact ⟨d, hp, rfl, fun h => by rcases h with h | h; exact absurd h hki; exact absurd h hke⟩
       · rw [n3o x e] at hx; exact i1.kind x nx hx
-    · intro x nx hx
+    · intro x nx hx hkx d' o' nd' hm hnd'
       by_cases e : x = k
-      · subst e; rw [n3k] at hx; cases hx; exact hkp
-      · rw [n3o x e] at hx; exact i1.noProj x nx hx
+      · subst e; rw [n3k] at hx; obtain rfl := Option.some.inj hx
+        obtain ⟨hlt, _, nd, hnd, _⟩ := hacc.2.2 d' o' hm
+        rw [n3o d' (by komega)] at hnd'
+        exact hpj hkx d' o' nd' hm hnd'
+      · rw [n3o x e] at hx
+        obtain ⟨_, nd, hnd⟩ := i1.down x nx hx d' o' hm
+        have := i1.pjFw x nx hx hkx d' o' nd hm hnd
+        by_cases e' : d' = k
+        · subst e'; rw [n3k] at hnd'; obtain rfl := Option.some.inj hnd'
+          show d.kind = .firewall
+          rw [← oldKind nd hnd]; exact this
+        · rw [n3o d' e', hnd] at hnd'; cases hnd'; exact this
+    · intro x nx hx hkx d' o' nd' hm hnd' hne
+      by_cases e : x = k
+      · subst e; rw [n3k] at hx; obtain rfl := Option.some.inj hx
+        obtain ⟨hlt, _, nd, hnd, hvd, _⟩ := hacc.2.2 d' o' hm
+        rw [n3o d' (by komega), hnd] at hnd'; cases hnd'
+        exact absurd hvd hne
+      · rw [n3o x e] at hx
+        by_cases e' : d' = k
+        · subst e'
+          rw [n3k] at hnd'; obtain rfl := Option.some.inj hnd'
+          obtain ⟨_, n0, h0⟩ := i1.down x nx hx d' o' hm
+          have hk0 := i1.pjFw x nx hx hkx d' o' n0 hm h0
+          show (changed || hasPending s1 d') = true
+          by_cases hv0 : n0.value = o'
+          · have : valueChanged s1 d' v = true :=
+              valueChanged_true_of_ne h0 (Or.inl hk0) (by rw [hv0]; exact fun h => hne h.symm)
+            simp [changed, this]
+          · have := i1.pjBroken x nx hx hkx d' o' n0 hm h0 hv0
+            simp [hasPending, h0, this]
+        · rw [n3o d' e'] at hnd'
+          exact i1.pjBroken x nx hx hkx d' o' nd' hm hnd' hne
     · intro x nx hx d' o' hm
       by_cases e : x = k
-      · subst e; rw [n3k] at hx; cases hx
+      · subst e; rw [n3k] at hx; obtain rfl := Option.some.inj hx
         obtain ⟨hlt, _, nd, hnd, _⟩ := hacc.2.2 d' o' hm
         exact ⟨hlt, nd, by rw [n3o d' (by komega)]; exact hnd⟩
       · rw [n3o x e] at hx
@@ -139,25 +228,25 @@ theorem publish_spec {p : Program} (np : NoProj p) {k : Key} {d : NodeDef} (hp :
         · exact ⟨h1, nd, by rw [n3o d' e']; exact hnd⟩
     · intro x nx hx f hf
       by_cases e : x = k
-      · subst e; rw [n3k] at hx; cases hx; exact hacc.2.1 f hf
+      · subst e; rw [n3k] at hx; obtain rfl := Option.some.inj hx; exact hacc.2.1 f hf
       · rw [n3o x e] at hx; exact i1.tfcDown x nx hx f hf
     · intro x nx hx
       by_cases e : x = k
-      · subst e; rw [n3k] at hx; cases hx; exact hacc.1
+      · subst e; rw [n3k] at hx; obtain rfl := Option.some.inj hx; exact hacc.1
       · rw [n3o x e] at hx; exact i1.nodup x nx hx
     · intro x nx dx hx hpx _ _
       by_cases e : x = k
-      · subst e; rw [n3k] at hx; cases hx
+      · subst e; rw [n3k] at hx; obtain rfl := Option.some.inj hx
         rw [hp] at hpx; cases hpx; exact htr
       · rw [n3o x e] at hx; exact i1.trace x nx dx hx hpx ‹_› ‹_›
     · intro x nx hx
       rw [e3]
       by_cases e : x = k
-      · subst e; rw [n3k] at hx; cases hx; exact Nat.le_refl _
+      · subst e; rw [n3k] at hx; obtain rfl := Option.some.inj hx; exact Nat.le_refl _
       · rw [n3o x e] at hx; exact i1.stamp x nx hx
     · intro x nx hx d' o' nd' hm hnd'
       by_cases e : x = k
-      · subst e; rw [n3k] at hx; cases hx
+      · subst e; rw [n3k] at hx; obtain rfl := Option.some.inj hx
         obtain ⟨hlt, _, nd, hnd, _, _, hse, hfw, hnm⟩ := hacc.2.2 d' o' hm
         rw [n3o d' (by komega), hnd] at hnd'; cases hnd'
         exact ⟨hfw, fun hk f hf => hnm hk f (by rw [← hse]; exact hf)⟩
@@ -165,14 +254,14 @@ theorem publish_spec {p : Program} (np : NoProj p) {k : Key} {d : NodeDef} (hp :
         obtain ⟨_, nd, hnd⟩ := i1.down x nx hx d' o' hm
         have hkk : nd'.kind = nd.kind := by
           by_cases e' : d' = k
-          · subst e'; rw [n3k] at hnd'; cases hnd'; exact (oldKind nd hnd).symm
+          · subst e'; rw [n3k] at hnd'; obtain rfl := Option.some.inj hnd'; exact (oldKind nd hnd).symm
           · rw [n3o d' e', hnd] at hnd'; cases hnd'; rfl
         rw [hkk]
         exact i1.seenSub x nx hx d' o' nd hm hnd
     · intro x nx hx hvx
       by_cases e : x = k
-      · subst e; rw [n3k] at hx; cases hx
-        refine Solid.mk x nn n3k (fun _ => hvx) ?_ ?_
+      · subst e; rw [n3k] at hx; obtain rfl := Option.some.inj hx
+        refine Solid.mk x nn n3k (fun _ => hvx) (fun _ => Or.inl hvx) ?_ ?_
         · intro d' o' hm
           obtain ⟨hlt, _, nd, hnd, hvd, _, hse, _, _⟩ := hacc.2.2 d' o' hm
           exact ⟨nd, by rw [n3o d' (by komega)]; exact hnd, hvd, fun _ => hse.symm⟩
@@ -183,7 +272,7 @@ theorem publish_spec {p : Program} (np : NoProj p) {k : Key} {d : NodeDef} (hp :
         exact sol x (i1.solid x nx hx (by rw [hvx, e3]))
     · intro x nx hx y o hm hcl
       by_cases e : x = k
-      · subst e; rw [n3k] at hx; cases hx
+      · subst e; rw [n3k] at hx; obtain rfl := Option.some.inj hx
         obtain ⟨hlt, _, nd, hnd, hvd, hver, hse, _, _⟩ := hacc.2.2 y o hm
         exact ⟨nd, by rw [n3o y (by komega)]; exact hnd, hvd, fun _ => hse.symm,
           fun _ => (sol y (i1.solid y nd hnd hver)).nGood⟩
@@ -193,22 +282,25 @@ theorem publish_spec {p : Program} (np : NoProj p) {k : Key} {d : NodeDef} (hp :
         by_cases ey : y = k
         · subst ey
           have hk0k := oldKind ny hny
+          have hch : changed = false := by
+            cases hx' : changed with
+            | false => rfl
+            | true => exact (notAffK hx' (haff hx')).elim
           cases hkd : d.kind with
           | input => exact absurd hkd hki
           | external => exact absurd hkd hke
-          | projection => exact absurd hkd hkp
-          | normal => exact absurd (hgood (by rw [hk0k, hkd])) (hbr.not_nGood hny)
+          | normal => exact absurd (hgood (by rw [hk0k, hkd])) (hng ny hny (by rw [hk0k, hkd]))
           | firewall =>
-            have hch : changed = decide (ny.value ≠ v) := by
-              simp only [changed, valueChanged, hny, hk0k, hkd, isFwPj]; simp
             refine ⟨nn, n3k, ?_, fun h => absurd hkd h, fun h => by rw [show nn.kind = d.kind from rfl, hkd] at h; cases h⟩
             show v = o
-            by_cases hvv : ny.value = v
-            · rw [← hvv, hvy]
-            · have : changed = true := by rw [hch]; simpa using hvv
-              have := haff this
-              rw [affected_step [y] down1] at this
-              simp at this
+            rw [sameVal ny hny (Or.inl (by rw [hk0k, hkd])) hch, hvy]
+          | projection =>
+            refine ⟨nn, n3k, ?_, fun _ => ?_, fun h => by rw [show nn.kind = d.kind from rfl, hkd] at h; cases h⟩
+            · show v = o
+              rw [sameVal ny hny (Or.inr (by rw [hk0k, hkd])) hch, hvy]
+            · show a.tfc = nx.seen y
+              rw [sameTfc ny hny (by rw [hk0k, hkd]) hch]
+              exact hacc' (by rw [hk0k, hkd]; decide)
         · exact ⟨ny, by rw [n3o y ey]; exact hny, hvy, hacc', fun h => ng y ny hny h ey (hgood h) haff⟩
   have nodeK : ∀ n0, s1.nodes k = some n0 → n0.kind ≠ .input ∧ n0.kind ≠ .external := by
     intro n0 h0
@@ -234,22 +326,55 @@ theorem publish_spec {p : Program} (np : NoProj p) {k : Key} {d : NodeDef} (hp :
         | none => simp [h1]
         | some n0 => simp [h1, (nodeK n0 h0).2]
       · rw [n3o x e]
-    refine ⟨e3, hin, by simp only [extOf, hpin, w3], w3, ?_, ?_, ?_⟩
+    refine ⟨e3, hin, by simp only [extOf, hpin, w3], w3, ?_, ?_, ?_, ?_, ?_⟩
     · intro x nx hsx hx
       have : x ≠ k := fun e => hns (e ▸ hsx)
-      exact ⟨nx, by rw [n3o x this]; exact hx, rfl, rfl, rfl, rfl, rfl⟩
+      exact ⟨nx, by rw [n3o x this]; exact hx, rfl, rfl, rfl, rfl, rfl, id⟩
+    · intro x nx hx hvx
+      have : x ≠ k := fun e => by subst e; exact hwhy.not_verified ⟨nx, hx, hvx⟩
+      exact ⟨nx, by rw [n3o x this]; exact hx, rfl, rfl⟩
+    · intro x nx' hx' hpd
+      by_cases e : x = k
+      · subst e
+        rw [n3k] at hx'; obtain rfl := Option.some.inj hx'
+        have hpd : (changed || hasPending s1 x) = true := hpd
+        cases h0 : s1.nodes x with
+        | none => simp [changed, valueChanged, projTfcChanged, hasPending, h0] at hpd
+        | some n0 =>
+          refine ⟨n0, rfl, ?_⟩
+          by_cases hp0 : n0.pendingBP = true
+          · exact Or.inl hp0
+          · have hch : changed = true := by simpa [hasPending, h0, hp0] using hpd
+            by_cases hvv : v = n0.value
+            · right; right
+              show a.tfc ≠ n0.tfc
+              intro ht
+              have h1 : valueChanged s1 x v = false := by simp [valueChanged, h0, hvv]
+              have h2 : projTfcChanged s1 x a.tfc = false := by simp [projTfcChanged, h0, ht]
+              simp [changed, h1, h2] at hch
+            · exact Or.inr (Or.inl hvv)
+      · exact ⟨nx', by rw [← n3o x e]; exact hx', Or.inl hpd⟩
     · intro x
       by_cases e : x = k
       · subst e; exact Or.inr ⟨nn, n3k, e3.symm⟩
       · exact Or.inl (n3o x e)
     · refine ⟨[k], l3, by simp, fun x hx => ?_, fun x hx hx' => ?_⟩
-      · rw [List.mem_singleton] at hx; subst hx; exact ⟨hj1, nn, n3k, e3.symm⟩
+      · rw [List.mem_singleton] at hx; subst hx
+        refine ⟨?_, nn, n3k, e3.symm⟩
+        rcases hwhy with h | ⟨hnv, n, f, o, hn, hk, hm, hpe⟩
+        · exact Or.inl h
+        · exact Or.inr ⟨hnv, n, f, o, hn, hk, hm, Or.inl hpe⟩
       · rw [List.mem_singleton]
         false_or_by_contra
         rename_i e
         exact hx' (by rw [n3o x e]; exact hx)
-  refine ⟨i3, f13, ?_, n3k, e3⟩
-  intro x hx
-  exact n3o x (by komega)
+  refine ⟨i3, f13, ⟨fun x hx => n3o x (by komega), ?_⟩, n3k, e3⟩
+  intro x n0 h0 hp0
+  by_cases e : x = k
+  · subst e
+    refine ⟨nn, n3k, ?_⟩
+    show (changed || hasPending s1 x) = true
+    simp [hasPending, h0, hp0]
+  · exact ⟨n0, by rw [n3o x e]; exact h0, hp0⟩
 
 end Qbice.CoreFw
